@@ -265,6 +265,43 @@ CLAIMED = {
              "written independently of the library. Known finding C11-comment-dns-resolver is modelled faithfully.",
         design="§4 C11",
     ),
+    "C13": dict(
+        text="Lean 4 proof: for every well-formed configuration, from_beacon_config does not raise (generation_total). Well-formed means any subset "
+             "and order of the understood settings, any latin-1 text in text settings, any config.uris including missing ones, all transform/recover "
+             "programs with arbitrary byte arguments, all BeaconGate vectors and all execute lists with arbitrary module/function names - no "
+             "character restriction anywhere. The tree is a valid derivation of the generated grammar whose text re-lexes to its tokens "
+             "(generated_valid, generated_tokens_wellformed, generated_text_relexes), no {} block is empty at any depth (empty_blocks_absent), the "
+             "# dns_resolver comment stays on one line, and the dictionary of the re-parsed profile equals the one promised from the configuration "
+             "alone, byte-exact via C12's literal_roundtrip (generated_faithful, generated_faithful_tlv, execute_item_faithful, *_literal_decodes). "
+             "Generated-table obligations re-proved on every run pin the if/elif chain, every emitted option/statement/block/execute/BeaconGate/"
+             "transform name against the grammar, the str->bytes preamble, the SETTING_DOMAINS branch and the encoded execute value to the source.",
+        note="The LALR parser step (from_text(as_text()).tree == tree) and as_dict = specDict (C11's subject) are compared on every case (19k quick / "
+             "117k thorough), not proved; generated_text_relexes excludes trees carrying the # dns_resolver comment. Execute items are modelled as "
+             "the UTF-8 bytes of the pretty str (invalid UTF-8 is C03's subject and is not generated). Pretty functions and dict semantics are C02/C03's "
+             "subject: the harness checks on every case that the library presents exactly the pretty values on the line. Tables come from "
+             "tools/gen/profile_gen.py (ast walk of from_beacon_config, DataTransformBlock.__init__, parse_transform_binary, parse_recover_binary, "
+             "beacon_gate_options_string, as_dict), grammar.py and strlit.py. Five defects found by this check were repaired in /repo (fix: commits).",
+        design="§4 C13, §11",
+    ),
+    "C08": dict(
+        text="Lean 4 proof: for every entry point that accepts untrusted bytes - BeaconConfig.from_bytes/from_file/from_path, XorEncodedFile.from_file, "
+             "the six pe.find_* helpers, iter_artifactkit_payloads, parse_raw_http and the Guardrails fallback - the model returns its documented "
+             "result or ValueError for every byte string, every initial position and both file kinds (io.BytesIO, OS file): only_value_error_* "
+             "(PE helpers and the ArtifactKit scanner never raise at all; find_stage_prepend_append for every largest offset the file object's seek "
+             "accepts and any seek failing with OSError/OverflowError/ValueError; the pre-fix code is kept and refuted on a 512-byte witness). Lean's "
+             "termination checker accepts every loop; the two fuel/guard-carrying loops are proved never to run out (settings_terminate, "
+             "never_diverges_fromFile). The documented not-found values (not_found_values*) and step bounds (guard_scan_bound, artifact_scan_bound, "
+             "detector_candidates_bound, detector_step_bound) are theorems.",
+        note="Wall-clock time is not a Lean notion: the proved bounds are counts, and the correspondence enforces a 30 s / 120 s watchdog on inputs "
+             "whose worst case is kept small by construction (the two expensive paths, ~0.02 s per XorEncoded detector candidate and ~0.18 s per "
+             "Guardrails marker, are linear in file size: observations, not violations). The composed models of C01/C02/C09/C15/C16/C17/C18 are tied to "
+             "the code by their own correspondence; here arbitrary bytes plus every truncation / bit and byte flips / splices of raw, PE-embedded, "
+             "XorEncoded and Guardrails payloads and crafted fields (section count 0xffff, e_lfanew out of range, export RVA outside sections, setting "
+             "length > remaining, 128-byte User-Agent at EOF, guard markers at offsets 0..6137, unterminated guard config) are run on both file kinds "
+             "and outcome classes compared. CPython file objects, dissect.cstruct, urllib and memory allocation are modelled, not verified "
+             "(a 4 GiB read(size) in the ArtifactKit scanner needs that much address space: recorded observation).",
+        design="§4 C08, §11",
+    ),
 }
 
 REASON_PENDING = "not claimed yet: model/theorems/correspondence for this property are not built in this revision (see DESIGN.md §7 build order)"
